@@ -33,7 +33,7 @@ def safe_names(rng, n, ext, hostile=0.35):
 
 
 class Driver:
-    def __init__(self, world, rng, weights=None, max_cols=4, pool=10, uids=6, ascii_names=False, audit_every=5, hostile=0.35, kinds=("calendar", "addressbook", "plain")):
+    def __init__(self, world, rng, weights=None, max_cols=5, pool=10, uids=6, ascii_names=False, audit_every=5, hostile=0.35, kinds=("calendar", "addressbook", "plain")):
         self.w = world
         self.rng = rng
         self.weights = dict(DEFAULT_WEIGHTS)
@@ -334,9 +334,20 @@ class Driver:
         """another git process holds .git/index.lock: writes must be refused without side effects"""
         import os
         col = self.pick_col(nonempty=True)
-        if col is None or col.backend != "tree":
+        if col is None or col.backend not in ("tree", "bare"):
             return None
-        lock = os.path.join(self.w.fs_path(col.path), ".git", "index.lock")
+        if col.backend == "tree":
+            lock = os.path.join(self.w.fs_path(col.path), ".git", "index.lock")
+        else:
+            # bare store: the lock of the branch HEAD points at
+            try:
+                head = open(os.path.join(self.w.fs_path(col.path), "HEAD")).read().strip()
+            except OSError:
+                return None
+            if not head.startswith("ref: "):
+                return None
+            lock = os.path.join(self.w.fs_path(col.path), head[5:] + ".lock")
+            os.makedirs(os.path.dirname(lock), exist_ok=True)
         if os.path.exists(lock):
             return None
         name = self.rng.choice(sorted(col.members))
@@ -428,8 +439,14 @@ class Driver:
         how = "auto"
         if kind == "calendar" and self.rng.random() < 0.3:
             how = "mkcol-ext"
+        if kind in ("calendar", "addressbook"):
+            k = self.rng.random()
+            if k < 0.2:
+                how = "mkcol-then-proppatch"
+            elif k < 0.3:
+                how = "mkcol-ext-rt-last"
         props = []
-        if how != "mkcol-plain" and kind != "plain" and self.rng.random() < 0.5:
+        if how != "mkcol-plain" and kind != "plain" and self.rng.random() < (0.5 if how in ("auto", "mkcol-ext") else 0.8):
             props = [(X.P_DISPLAYNAME, "name " + self.w.new_token())]
         self.w.mkcol(path, kind, how=how, props=props)
         return [path, self.w.parent_of(path)]
